@@ -31,38 +31,37 @@ Qed.
 (* table.unpack: the elements list[i..j] (defaults 1, #list) for all int64
    i, j and any reported length; the only other outcome is the
    implementation's limit on the number of results, raised exactly when
-   j - i >= 256 and i < maxint - 256 (nothing read, nothing changed). *)
+   j - i >= 256 (nothing read, nothing changed). *)
+Lemma unpack_body i0 j0 st : i64 i0 -> i64 j0 ->
+  run (if (i0 <=? j0) && (maxUnpackSize <=? (j0 - i0) mod 2^64)
+       then Fail TETooMany else unpack_loop (Z.to_nat (j0 - i0 + 1)) i0) st
+  = if 256 <=? j0 - i0 then (OFail TETooMany, st) else (ORet (unpack_spec (m1 st) i0 j0), st).
+Proof.
+  unfold i64, maxUnpackSize. intros Hi0 Hj0.
+  destruct (i0 <=? j0) eqn:A; [apply Z.leb_le in A|apply Z.leb_gt in A]; cbn [andb].
+  - rewrite Z.mod_small by lia.
+    destruct (256 <=? j0 - i0) eqn:B; [reflexivity|].
+    apply Z.leb_gt in B. rewrite unpack_loop_run by (unfold i64; lia). reflexivity.
+  - replace (256 <=? j0 - i0) with false by (symmetry; apply Z.leb_gt; lia).
+    rewrite unpack_loop_run by (unfold i64; lia). reflexivity.
+Qed.
+
 Theorem unpack_correct i j st :
   oin64 i -> oin64 j -> in64 (len1 st) ->
   let i0 := match i with Some i => i | None => 1 end in
   let j0 := match j with Some j => j | None => len1 st end in
-  if (256 <=? j0 - i0) && (i0 <? 2^63 - 1 - 256)
+  if 256 <=? j0 - i0
   then run (unpack_im i j) st = (OFail TETooMany, st)
   else run (unpack_im i j) st = (ORet (unpack_spec (m1 st) i0 j0), st).
 Proof.
-  intros Hi Hj HL i0 j0. unfold unpack_im. fold i0.
-  assert (Hi0 : in64 i0) by (subst i0; destruct i; [exact Hi|unfold in64, minint, maxint; lia]).
-  assert (Hj0 : in64 j0) by (subst j0; destruct j; [exact Hj|exact HL]).
-  unfold in64, minint, maxint in Hi0, Hj0.
-  assert (E : run (match j with
-                   | Some j1 => (fun j2 : Z => if (i0 <? maxint - maxUnpackSize) && (wrap (i0 + maxUnpackSize) <=? j2)
-                                                then Fail TETooMany else unpack_loop (Z.to_nat (j2 - i0 + 1)) i0) j1
-                   | None => PLen T1 (fun j2 : Z => if (i0 <? maxint - maxUnpackSize) && (wrap (i0 + maxUnpackSize) <=? j2)
-                                                then Fail TETooMany else unpack_loop (Z.to_nat (j2 - i0 + 1)) i0)
-                   end) st
-              = run (if (i0 <? maxint - maxUnpackSize) && (wrap (i0 + maxUnpackSize) <=? j0)
-                     then Fail TETooMany else unpack_loop (Z.to_nat (j0 - i0 + 1)) i0) st).
-  { subst j0. destruct j; reflexivity. }
-  rewrite E. clear E. unfold maxint, maxUnpackSize.
-  destruct (i0 <? 2^63 - 1 - 256) eqn:A.
-  - apply Z.ltb_lt in A. rewrite (wrap_i64 (i0 + 256)) by (unfold i64; lia).
-    rewrite andb_true_r. cbn [andb].
-    destruct (256 <=? j0 - i0) eqn:B; [apply Z.leb_le in B|apply Z.leb_gt in B].
-    + replace (i0 + 256 <=? j0) with true by (symmetry; apply Z.leb_le; lia). reflexivity.
-    + replace (i0 + 256 <=? j0) with false by (symmetry; apply Z.leb_gt; lia).
-      rewrite unpack_loop_run by (unfold i64; lia). reflexivity.
-  - rewrite andb_false_r. cbn [andb]. apply Z.ltb_ge in A.
-    rewrite unpack_loop_run by (unfold i64; lia). reflexivity.
+  intros Hi Hj HL i0 j0.
+  assert (Hi0 : i64 i0) by (subst i0; destruct i; [exact Hi|unfold i64; lia]).
+  assert (Hj0 : i64 j0) by (subst j0; destruct j; [exact Hj|exact HL]).
+  assert (E : run (unpack_im i j) st = run (if (i0 <=? j0) && (maxUnpackSize <=? (j0 - i0) mod 2^64)
+       then Fail TETooMany else unpack_loop (Z.to_nat (j0 - i0 + 1)) i0) st).
+  { unfold unpack_im. fold i0. subst j0. destruct j; reflexivity. }
+  rewrite E, unpack_body by assumption.
+  destruct (256 <=? j0 - i0); reflexivity.
 Qed.
 
 (* -------------------------------------------------------------------- pack *)
